@@ -5,13 +5,20 @@
 package c01
 
 import (
+	"bytes"
 	"fmt"
+	"io"
+	"os"
 	"strings"
 	"time"
 
+	"github.com/enfein/mieru/v3/pkg/appctl/appctlpb"
+
 	"verif/engine/explore"
 	"verif/engine/runner"
+	"verif/engine/vsched"
 	"verif/harness/reg"
+	"verif/harness/world"
 	. "verif/harness/xfer"
 )
 
@@ -222,6 +229,8 @@ func units(tier string, prop string, mon Monitor) []runner.Unit {
 			RunOne(u, base, pats, explore.Bound{Ds: ds}, mon)
 		}})
 	}
+	us = append(us, siblingUnits(prop)...)
+	us = append(us, lateResponseUnits(prop)...)
 	return us
 }
 
@@ -231,4 +240,225 @@ func many(n, size int) []int {
 		out[i] = size
 	}
 	return out
+}
+
+// siblingUnits: what one proxy connection does (or never does) must not cost another proxy
+// connection on the same TCP connection its data. A dials and never writes; B shares A's
+// underlay; A is closed at some point of B's life; B's transfer must be complete.
+func siblingUnits(prop string) []runner.Unit {
+	return []runner.Unit{{Name: "never-written-sibling-closed", Cost: 2, Run: func(u *runner.U) {
+		for i, when := range []string{"before-b-writes", "after-b-wrote", "after-b-echo", "before-b-dials"} {
+			when := when
+			name := "raw mux, TCP, multiplexing: A dials and never writes, B echoes 2000 bytes, A is closed " + when
+			u.Sample(name)
+			u.Explore(explore.Bound{}, name, func(ctl *explore.Ctl) explore.Result {
+				v := &Verdict{Prop: prop}
+				cfg := world.Config{MTU: 1400, Seed: int64(3300 + i), Horizon: 120 * time.Second, RawMux: true, Mux: appctlpb.MultiplexingLevel_MULTIPLEXING_HIGH}
+				ex := world.Run(cfg, ctl, func(w *world.World) {
+					w.Go("srv", "server", func() {
+						for {
+							c, err := w.RawAccept()
+							if err != nil {
+								return
+							}
+							w.Go("echo", "server", func() {
+								buf := make([]byte, 4096)
+								for {
+									n, err := c.Read(buf)
+									if n > 0 {
+										c.Write(buf[:n])
+									}
+									if err != nil && !world.IsTimeout(err) {
+										c.Close()
+										return
+									}
+								}
+							})
+						}
+					})
+					a, err := w.RawDial()
+					if err != nil {
+						v.Add("dial-failed", "A: %v", err)
+						return
+					}
+					if when == "before-b-dials" {
+						a.Close()
+					}
+					b, err := w.RawDial()
+					if err != nil {
+						v.Add("dial-failed", "B: %v", err)
+						return
+					}
+					if when == "before-b-writes" {
+						a.Close()
+					}
+					msg := world.Pattern(1, 'c', 0, 2000)
+					if n, err := b.Write(msg); err != nil {
+						v.Add("write-error", "B: Write returned (%d, %v)", n, err)
+						return
+					}
+					if when == "after-b-wrote" {
+						a.Close()
+					}
+					got := make([]byte, len(msg))
+					b.SetReadDeadline(w.S.Now().Add(30 * time.Second))
+					n, err := io.ReadFull(b, got)
+					switch {
+					case err == io.EOF || err == io.ErrUnexpectedEOF:
+						v.Add("early-eof", "B wrote 2000 bytes and was never closed; its reader got a clean end of stream after %d of 2000 echoed bytes (A, which never wrote, was closed %s)", n, when)
+					case err != nil:
+						v.Add("read-error", "B: read %d of 2000 echoed bytes: %v", n, err)
+					case !bytes.Equal(got, msg):
+						v.Add("mismatch", "B: the echo differs from what was written")
+					}
+					if when == "after-b-echo" {
+						a.Close()
+						if _, err := b.Write(msg[:100]); err == nil {
+							b.SetReadDeadline(w.S.Now().Add(30 * time.Second))
+							if n, err := io.ReadFull(b, got[:100]); err != nil {
+								v.Add("early-eof", "B's second exchange after A was closed: read %d of 100 bytes: %v", n, err)
+							}
+						} else {
+							v.Add("write-error", "B: Write after A was closed: %v", err)
+						}
+					}
+					b.Close()
+					w.Shutdown()
+				})
+				for _, pn := range ex.Panics {
+					v.Add("panic", "%s", pn)
+				}
+				out := "ok"
+				if len(v.Viol) > 0 {
+					out = v.Viol[0].Signature
+				}
+				return explore.Result{Outcome: out, Violations: v.Viol, Steps: ex.Steps}
+			})
+			u.Distinct(name)
+		}
+	}}}
+}
+
+// lateResponseUnits: B is opened, written once and closed at once; the server's answer for B
+// travels behind a segment of sibling A on a slow server-to-client path and arrives after the
+// client has forgotten B (5 s housekeeping tick): A's transfer must be complete all the same.
+func lateResponseUnits(prop string) []runner.Unit {
+	return []runner.Unit{{Name: "late-answer-for-a-forgotten-sibling", Cost: 2, Run: func(u *runner.U) {
+		for i, hold := range []time.Duration{3 * time.Second, 6 * time.Second, 11 * time.Second} {
+			hold := hold
+			name := fmt.Sprintf("raw mux, TCP, multiplexing: A echoes, B is opened, written and closed at once, the server-to-client path then stalls for %v", hold)
+			u.Sample(name)
+			run := func(holdAt int64, ctl *explore.Ctl) (explore.Result, int64) {
+				v := &Verdict{Prop: prop}
+				cfg := world.Config{MTU: 1400, Seed: int64(3400 + i), Horizon: 120 * time.Second, RawMux: true, Mux: appctlpb.MultiplexingLevel_MULTIPLEXING_HIGH}
+				if holdAt > 0 {
+					cfg.S2C.HoldAt, cfg.S2C.HoldFor = holdAt, hold
+				}
+				var mark int64
+				ex := world.Run(cfg, ctl, func(w *world.World) {
+					w.Go("srv", "server", func() {
+						for {
+							c, err := w.RawAccept()
+							if err != nil {
+								return
+							}
+							w.Go("echo", "server", func() {
+								buf := make([]byte, 4096)
+								for {
+									n, err := c.Read(buf)
+									if n > 0 {
+										c.Write(buf[:n])
+									}
+									if err != nil && !world.IsTimeout(err) {
+										c.Close()
+										return
+									}
+								}
+							})
+						}
+					})
+					a, err := w.RawDial()
+					if err != nil {
+						v.Add("dial-failed", "A: %v", err)
+						return
+					}
+					m1, m2 := world.Pattern(1, 'c', 0, 200), world.Pattern(1, 'c', 200, 300)
+					got := make([]byte, 300)
+					a.Write(m1)
+					a.SetReadDeadline(w.S.Now().Add(30 * time.Second))
+					if _, err := io.ReadFull(a, got[:200]); err != nil {
+						v.Add("read-error", "A: first echo: %v", err)
+						return
+					}
+					for _, t := range w.Net.Streams {
+						if t.Dir == "s2c" {
+							mark += int64(len(t.Data))
+						}
+					}
+					// from here on the server-to-client path is slow (second pass)
+					a.Write(m2)
+					vsched.Sleep(10 * time.Millisecond)
+					b, err := w.RawDial()
+					if err == nil {
+						b.Write([]byte("cancelled request"))
+						b.Close()
+					}
+					a.SetReadDeadline(w.S.Now().Add(40 * time.Second))
+					n, err := io.ReadFull(a, got)
+					if os.Getenv("VERIF_DEBUG_C01") != "" {
+						fmt.Fprintf(os.Stderr, "late-answer hold=%v holdAt=%d mark=%d: A read %d err=%v at %v; streams=%d\n", hold, holdAt, mark, n, err, time.Duration(w.S.NowNS()), len(w.Net.Streams))
+					}
+					switch {
+					case err == io.EOF || err == io.ErrUnexpectedEOF:
+						v.Add("early-eof", "A wrote 300 more bytes and was never closed; its reader got a clean end of stream after %d of the 300 echoed bytes (sibling B had been opened, written and closed; its answer arrived %v late)", n, hold)
+					case err != nil:
+						v.Add("read-error", "A: read %d of 300 echoed bytes: %v", n, err)
+					case !bytes.Equal(got, m2):
+						v.Add("mismatch", "A: the echo differs from what was written")
+					}
+					// B's late answer has been processed by now: A carries on
+					vsched.Sleep(100 * time.Millisecond)
+					m3 := world.Pattern(1, 'c', 500, 400)
+					if len(v.Viol) == 0 {
+						if wn, err := a.Write(m3); err != nil {
+							v.Add("write-error", "A: Write after sibling B's late answer arrived returned (%d, %v); A was never closed", wn, err)
+						} else {
+							got3 := make([]byte, 400)
+							a.SetReadDeadline(w.S.Now().Add(40 * time.Second))
+							n, err := io.ReadFull(a, got3)
+							switch {
+							case err == io.EOF || err == io.ErrUnexpectedEOF:
+								v.Add("early-eof", "A was never closed; after the late answer for its forgotten sibling B arrived (%v late) A's reader got a clean end of stream after %d of 400 echoed bytes", hold, n)
+							case err != nil:
+								v.Add("read-error", "A: read %d of 400 echoed bytes: %v", n, err)
+							case !bytes.Equal(got3, m3):
+								v.Add("mismatch", "A: the echo differs from what was written")
+							}
+						}
+					}
+					a.Close()
+					w.Shutdown()
+				})
+				for _, pn := range ex.Panics {
+					v.Add("panic", "%s", pn)
+				}
+				out := "ok"
+				if len(v.Viol) > 0 {
+					out = v.Viol[0].Signature
+				}
+				return explore.Result{Outcome: out, Violations: v.Viol, Steps: ex.Steps}, mark
+			}
+			// first pass: where in the server-to-client stream the stall begins
+			_, mark := run(0, explore.NewCtl(nil))
+			if mark == 0 {
+				u.EngineError("late-answer: the first pass did not establish A")
+				return
+			}
+			u.Explore(explore.Bound{}, name, func(ctl *explore.Ctl) explore.Result {
+				r, _ := run(mark, ctl)
+				return r
+			})
+			u.Distinct(name)
+		}
+	}}}
 }
